@@ -153,7 +153,8 @@ def run_pool(tasks, njobs, known=()):
                 break
         return [r if r is not None else {"skipped": True, "violations": []} for r in results]
     ctx = mp.get_context("fork")
-    deadline = float(os.environ.get("GBSIM_BATCH_TIMEOUT", str(max(600.0, 0.4 * len(tasks)))))
+    # safety net only (every run has its own watchdog): generous enough for the slowest property (C19: ~6 s per run) on a loaded machine
+    deadline = float(os.environ.get("GBSIM_BATCH_TIMEOUT", str(max(1800.0, 4.0 * len(tasks)))))
     ex = cf.ProcessPoolExecutor(max_workers=njobs, mp_context=ctx)
     try:
         futs = {ex.submit(_worker, t): i for i, t in enumerate(tasks)}
